@@ -372,11 +372,11 @@ theorem C04_persist_roundtrip_repaired (c : Client) (huid : c.uid ≠ 0)
 up a storage that implements the SAME registry: same clients, consistent index,
 and every probe (lookups by name and identifier, `Find`, the per-request
 filtering settings) shows exactly what it showed before the restart. -/
-theorem C04_restart_same_registry {fix : Bool} {s : Storage} {w : World} (hr : Refines s w)
+theorem C04_restart_same_registry {fix : Bool} (src : RuntimeSources) {s : Storage} {w : World} (hr : Refines s w)
     (hp : ∀ c ∈ s.index.clients, Persistable fix c ∧ c.validate = none ∧ ∀ m ∈ c.macs, macOK m = true) :
-    ∃ s', s.restart fix = (s', .ok) ∧ Refines s' w ∧
+    ∃ s', s.restart fix src = (s', .ok) ∧ Refines s' w ∧
       ∀ p, probeInScope w p = true → modelSeen s' p = modelSeen s p := by
-  obtain ⟨s', h1, h2, h3, h4⟩ := restart_ok hr.inv hp
+  obtain ⟨s', h1, h2, h3, h4⟩ := restart_ok src hr.inv hp
   have hr' : Refines s' w := ⟨h2, h3.trans hr.perm, h4.trans hr.dhcp⟩
   refine ⟨s', h1, hr', ?_⟩
   intro p hsc
@@ -396,11 +396,28 @@ the IPv6 address `0:11:22:33:44:55:66:77`.  With the repair it keeps its MAC. -/
 theorem C04_counterexample_restart_eui64_before_fix :
     let s := (Storage.empty.add euiClient).1
     (Storage.empty.add euiClient).2 = .ok ∧ s.findByMAC euiMAC = .client euiClient ∧
-    (s.restart false).2 = .ok ∧ (s.restart false).1.findByMAC euiMAC = .none ∧
-    ((s.restart false).1.index.findByIP (.v6 0x0011002200330044005500660077 [])).opt.map (·.uid) = some 1 ∧
+    (s.restart false ⟨false, false, false, false, false⟩).2 = .ok ∧ (s.restart false ⟨false, false, false, false, false⟩).1.findByMAC euiMAC = .none ∧
+    ((s.restart false ⟨false, false, false, false, false⟩).1.index.findByIP (.v6 0x0011002200330044005500660077 [])).opt.map (·.uid) = some 1 ∧
     -- with the repair the client keeps its MAC
-    (s.restart true).2 = .ok ∧ (s.restart true).1.findByMAC euiMAC = .client euiClient := by
+    (s.restart true ⟨false, false, false, false, false⟩).2 = .ok ∧ (s.restart true ⟨false, false, false, false, false⟩).1.findByMAC euiMAC = .client euiClient := by
   decide +kernel
+
+/-- The `runtime_sources` switches (whois, arp, rdns, dhcp, hosts) never change
+what a restart brings up, hence never the attribution of a request to a
+persistent client — in particular the "MAC of the DHCP lease" step keeps
+working with `runtime_sources.dhcp: false`. -/
+theorem C04_runtime_sources_irrelevant (fix : Bool) (src src' : RuntimeSources) (s : Storage) (cid : Bytes) (a : IP) :
+    s.restart fix src = s.restart fix src' ∧
+    (s.restart fix src).1.resolve cid a = (s.restart fix src').1.resolve cid a ∧
+    (s.restart fix src).1.dhcp = s.dhcp := by
+  refine ⟨rfl, rfl, ?_⟩
+  unfold Storage.restart
+  simp only
+  split
+  · rfl
+  · split
+    · next s' h => exact addAll_dhcp (s := ⟨Index.empty, s.dhcp⟩) h
+    · rfl
 
 /-! ### at most one client -/
 
